@@ -26,7 +26,10 @@ type documentXML struct {
 type bodyXML struct {
 	Paragraphs []paragraphXML `xml:"p"`
 	Tables     []tableXML     `xml:"tbl"`
-	Elements   []bodyElement  `xml:"-"` // Populated manually to preserve order
+	// Block-level content controls wrap ordinary body content
+	SdtParagraphs []paragraphXML `xml:"sdt>sdtContent>p"`
+	SdtTables     []tableXML     `xml:"sdt>sdtContent>tbl"`
+	Elements      []bodyElement  `xml:"-"` // Populated manually to preserve order
 }
 
 // bodyElement represents an element in the document body (paragraph or table).
@@ -376,7 +379,7 @@ type footerXML struct {
 func paragraphInlineText(inner string) string {
 	decoder := xml.NewDecoder(strings.NewReader(inner))
 	var sb strings.Builder
-	skip := 0      // depth inside an element whose content is not paragraph text
+	skip := 0       // depth inside an element whose content is not paragraph text
 	inText := false // inside <w:t>
 
 	for {
